@@ -4,6 +4,7 @@ Model: `IrVerif/Model/Path.lean`; helper lemmas: `IrVerif/Lemmas/Path.lean`.
 -/
 import IrVerif.Lemmas.PathReal
 import IrVerif.Lemmas.PathLoad
+import IrVerif.Lemmas.PathCall
 namespace IrVerif.Path
 
 /-- **C10_lexical**: when check 1 (_core.py:789-799) passes, the components of
@@ -42,13 +43,19 @@ theorem isabs_normpath_abs (p : Str) (h : isabs p = true) : isabs (normpath p) =
 
 /-- **C10_load_base_nonempty**: for every spelling of the model path (absolute, relative, "./x",
 bare name, trailing separators, empty) and every load-time working directory, the base directory
-`load()` assigns (_io.py:37) is non-empty, so the containment checks are never disabled for a
+`load()` assigns (_io.py:37-41) is non-empty, so the containment checks are never disabled for a
 loaded model, and absolute, so a later chdir cannot change what it names. -/
 theorem C10_load_base_nonempty (cwdS modelPath : Str) (hcwd : isabs cwdS = true) :
     loadBase cwdS modelPath ≠ [] ∧ isabs (loadBase cwdS modelPath) = true := by
   have h : isabs (loadBase cwdS modelPath) = true := by
-    unfold loadBase loadBaseAbs abspath
-    exact isabs_normpath_abs _ (isabs_abspath_arg cwdS _ hcwd)
+    unfold loadBase pjoin
+    by_cases ha : isabs (loadDir modelPath) = true
+    · simp [ha]
+    · have hne : cwdS ≠ [] := by intro e; rw [e] at hcwd; simp [isabs] at hcwd
+      simp only [ha, Bool.false_eq_true, if_false, hne, false_or]
+      split
+      · rw [isabs_append _ _ hne]; exact hcwd
+      · rw [isabs_append _ _ hne]; exact hcwd
   refine ⟨?_, h⟩
   intro e
   rw [e] at h
@@ -56,7 +63,7 @@ theorem C10_load_base_nonempty (cwdS modelPath : Str) (hcwd : isabs cwdS = true)
 
 /-- D23 on the derivation before the fix: a bare file name gives the empty base directory. -/
 example : loadBaseUnfixed "model.onnx".toList = [] := by decide
-example : loadBase "/w".toList "model.onnx".toList = "/w".toList := by decide
+example : loadBase "/w".toList "model.onnx".toList = "/w/.".toList := by decide
 example : loadBase "/w".toList "dir/model.onnx".toList = "/w/dir".toList := by decide
 
 /-- **C10_real**: when check 2 (_core.py:802-810) passes, the components of
@@ -103,15 +110,10 @@ theorem checkContainment_skipped (fs : FS) (kfuel fuel : Nat) (cwdS : Str) (cwd 
       · exact absurd h (by simp)
       · split at h <;> exact absurd h (by simp)
 
-theorem produce_ok (ep : EntryPoint) (content : List Nat) (offset length : Nat) (bytes : List Nat)
-    (h : produce ep content offset length = ReadResult.ok bytes) :
-    bytes = (content.drop offset).take length ∧ offset + length ≤ content.length := by
-  unfold produce at h
-  cases ep <;> simp only at h <;> (repeat' split at h) <;> simp_all <;> omega
-
-theorem openFile_some (fs : FS) (kfuel : Nat) (cwd : Loc) (p : Str) (i : Nat)
-    (h : openFile fs kfuel cwd p = some i) :
-    ∃ l, kresolve fs kfuel cwd p true = some l ∧ fs.get l = some (Node.file i) := by
+theorem openFile_some (fs : FS) (kfuel : Nat) (cwd : Loc) (p : Str) (i : Nat) (reg : Bool)
+    (h : openFile fs kfuel cwd p = some (i, reg)) :
+    ∃ l, kresolve fs kfuel cwd p true = some l ∧
+      ((reg = true ∧ fs.get l = some (Node.file i)) ∨ (reg = false ∧ fs.get l = some (Node.other i))) := by
   unfold openFile at h
   cases hk : kresolve fs kfuel cwd p true with
   | none => simp [hk] at h
@@ -124,14 +126,18 @@ theorem openFile_some (fs : FS) (kfuel : Nat) (cwd : Loc) (p : Str) (i : Nat)
       | dir => simp [hg] at h
       | link t => simp [hg] at h
       | file j =>
-        simp only [hg, Option.some.injEq] at h
-        subst h
-        exact ⟨l, rfl, hg⟩
+        simp only [hg, Option.some.injEq, Prod.mk.injEq] at h
+        obtain ⟨rfl, rfl⟩ := h
+        exact ⟨l, rfl, Or.inl ⟨rfl, hg⟩⟩
+      | other j =>
+        simp only [hg, Option.some.injEq, Prod.mk.injEq] at h
+        obtain ⟨rfl, rfl⟩ := h
+        exact ⟨l, rfl, Or.inr ⟨rfl, hg⟩⟩
 
-/-- what is known about a file the guarded read opened: it is the regular file `i` at the
-location `l` the kernel resolved `join(base, loc)` to; it has at most one link; `l` lies
-component-wise below `realpath(base)` and below the kernel's own resolution `bl` of the base whenever
-the base resolves; `l` is reached through real directories only; the path is also lexically inside -/
+/-- what is known about a file a call opened: it is the REGULAR file `i` at the location `l` the
+kernel resolved `join(base, loc)` to; it has at most one link; `l` lies component-wise below
+`realpath(base)` and below the kernel's own resolution `bl` of the base whenever the base resolves;
+`l` is reached through real directories only; the path is also lexically inside -/
 def SafeOpen (fs : FS) (kfuel fuel : Nat) (cwd : Loc) (base loc : Str) (i : Nat) : Prop :=
   ∃ l, kresolve fs kfuel cwd (tensorPath base loc) true = some l ∧
     fs.get l = some (Node.file i) ∧
@@ -142,142 +148,247 @@ def SafeOpen (fs : FS) (kfuel fuel : Nat) (cwd : Loc) (base loc : Str) (i : Nat)
     comps (abspath (render cwd) base) <+: comps (abspath (render cwd) (tensorPath base loc))
 
 theorem safeOpen_of_pass (fs : FS) (kfuel fuel : Nat) (cwd : Loc) (hcwd : RealDir fs cwd)
-    (hfuel : kfuel ≤ fuel) (base loc : Str) (i : Nat)
+    (hfuel : kfuel ≤ fuel) (base loc : Str) (i : Nat) (reg : Bool)
     (hv : checkContainment fs kfuel fuel (render cwd) cwd base loc = Verdict.pass)
-    (ho : openFile fs kfuel cwd (tensorPath base loc) = some i) :
+    (ho : openFile fs kfuel cwd (tensorPath base loc) = some (i, reg)) :
     SafeOpen fs kfuel fuel cwd base loc i := by
   obtain ⟨_, hc1, hc2, hc3⟩ := checkContainment_pass _ _ _ _ _ _ _ hv
-  obtain ⟨l, hk, hg⟩ := openFile_some _ _ _ _ _ ho
+  obtain ⟨l, hk, hkind⟩ := openFile_some _ _ _ _ _ _ ho
   obtain ⟨hrp, hchain⟩ := realpath_of_kresolve fs kfuel fuel cwd hcwd _ kfuel l hk hfuel
   have hin : comps (realpath fs kfuel fuel (render cwd) cwd base) <+: l := by
     have := contained_comps _ _ hc2
     rwa [hrp, comps_render l hchain.1] at this
-  refine ⟨l, hk, hg, ?_, hin, ?_, hchain, contained_comps _ _ hc1⟩
-  · unfold check3 at hc3
+  -- check 3 looked at the very same object: regular, at most one link
+  have hreg : fs.get l = some (Node.file i) ∧ fs.nlink i ≤ 1 := by
+    unfold check3 at hc3
     rw [hrp] at hc3
-    unfold statNlink at hc3
-    rw [kresolve_render fs kfuel cwd l hchain _ hg (by intro t; simp)] at hc3
-    simpa [hg] using hc3
-  · intro bl hbl
-    obtain ⟨hrb, hcb⟩ := realpath_of_kresolve fs kfuel fuel cwd hcwd _ kfuel bl hbl hfuel
-    rwa [hrb, comps_render bl hcb.1] at hin
+    unfold statFile at hc3
+    rcases hkind with ⟨_, hg⟩ | ⟨_, hg⟩
+    · rw [kresolve_render fs kfuel cwd l hchain _ hg (by intro t; simp)] at hc3
+      simp only [hg, Bool.and_true, decide_eq_true_eq] at hc3
+      exact ⟨hg, hc3⟩
+    · rw [kresolve_render fs kfuel cwd l hchain _ hg (by intro t; simp)] at hc3
+      simp [hg] at hc3
+  refine ⟨l, hk, hreg.1, hreg.2, hin, ?_, hchain, contained_comps _ _ hc1⟩
+  intro bl hbl
+  obtain ⟨hrb, hcb⟩ := realpath_of_kresolve fs kfuel fuel cwd hcwd _ kfuel bl hbl hfuel
+  rwa [hrb, comps_render bl hcb.1] at hin
+
+theorem pass_of_not_rejecting (fs : FS) (kfuel fuel : Nat) (cwdS : Str) (cwd : Loc) (base loc : Str)
+    (hb : base ≠ []) (h : rejecting (checkContainment fs kfuel fuel cwdS cwd base loc) = false) :
+    checkContainment fs kfuel fuel cwdS cwd base loc = Verdict.pass := by
+  cases hv : checkContainment fs kfuel fuel cwdS cwd base loc with
+  | rej1 => rw [hv] at h; simp [rejecting] at h
+  | rej2 => rw [hv] at h; simp [rejecting] at h
+  | rej3 => rw [hv] at h; simp [rejecting] at h
+  | skipped => exact absurd (checkContainment_skipped _ _ _ _ _ _ _ hv) hb
+  | pass => rfl
+
+/-- the events of a read of an unmapped tensor are the check-then-open events, for every entry
+point -/
+theorem read_events (fs : FS) (kfuel fuel : Nat) (cwdS : Str) (cwd : Loc) (base loc : Str)
+    (offset length : Nat) (ep : EntryPoint) :
+    (read fs kfuel fuel cwdS cwd base loc offset length ep).2 =
+      guardedEvents fs kfuel fuel cwdS cwd base loc := by
+  unfold read
+  simp only
+  rw [call_eq_spec]
+  exact callSpec_fresh_events _ _ _ _ _ _ _ _ _ _
+
+/-- an open event is preceded, in the same call, by the containment check with a verdict that does
+not reject -/
+def CheckedOpens (v : Verdict) (events : List Ev) : Prop :=
+  ∀ pre p oi post, events = pre ++ Ev.openEv p oi :: post →
+    Ev.check v ∈ pre ∧ rejecting v = false
+
+theorem checkedOpens_guarded (fs : FS) (kfuel fuel : Nat) (cwdS : Str) (cwd : Loc) (base loc : Str) :
+    CheckedOpens (checkContainment fs kfuel fuel cwdS cwd base loc)
+      (guardedEvents fs kfuel fuel cwdS cwd base loc) := by
+  intro pre p oi post h
+  unfold guardedEvents at h
+  by_cases hv : rejecting (checkContainment fs kfuel fuel cwdS cwd base loc) = true
+  · simp only [hv, if_true] at h
+    cases pre with
+    | nil => simp at h
+    | cons x t =>
+      simp only [List.cons_append, List.cons.injEq] at h
+      have := h.2
+      cases t <;> simp at this
+  · have hv' : rejecting (checkContainment fs kfuel fuel cwdS cwd base loc) = false := by simpa using hv
+    simp only [hv', Bool.false_eq_true, if_false] at h
+    refine ⟨?_, hv'⟩
+    cases pre with
+    | nil => simp at h
+    | cons x t =>
+      simp only [List.cons_append, List.cons.injEq] at h
+      rw [← h.1]; simp
+
+/-- **C10_all_entry_points**: the five read entry points are five statement lists (`body`:
+numpy, `__array__`, tobytes, tofile, serialisation) run by an interpreter in which an open
+statement opens the path whatever was checked before.  For each of them, from ANY cached state of
+the tensor (mapped or not): every open event of the call is preceded, in that call, by the
+containment check with a non-rejecting verdict; it opens `join(base, loc)` only; after a rejecting
+check nothing is opened and the call raises; and a call that performs no event at all is a
+non-`tofile` entry point served from state cached by an earlier call. -/
+theorem C10_all_entry_points (fs : FS) (kfuel fuel : Nat) (cwdS : Str) (cwd : Loc) (base loc : Str)
+    (offset length : Nat) (ep : EntryPoint) (st : TState) :
+    CheckedOpens (checkContainment fs kfuel fuel cwdS cwd base loc)
+      (call fs kfuel fuel cwdS cwd base loc offset length ep st).2.1 ∧
+    (∀ p oi, Ev.openEv p oi ∈ (call fs kfuel fuel cwdS cwd base loc offset length ep st).2.1 →
+      p = tensorPath base loc) ∧
+    (rejecting (checkContainment fs kfuel fuel cwdS cwd base loc) = true →
+      (∀ p oi, Ev.openEv p oi ∉ (call fs kfuel fuel cwdS cwd base loc offset length ep st).2.1) ∧
+      ((call fs kfuel fuel cwdS cwd base loc offset length ep st).2.1 ≠ [] →
+        (call fs kfuel fuel cwdS cwd base loc offset length ep st).1 = ReadResult.raised)) ∧
+    ((call fs kfuel fuel cwdS cwd base loc offset length ep st).2.1 = [] →
+      ep ≠ EntryPoint.tofile ∧ st ≠ TState.fresh) := by
+  rw [call_eq_spec]
+  rcases callSpec_events fs kfuel fuel cwdS cwd base loc offset length ep st with ⟨he, h1, h2⟩ | he
+  · rw [he]
+    refine ⟨?_, by simp, fun _ => ⟨by simp, by simp⟩, fun _ => ⟨h1, h2⟩⟩
+    intro pre p oi post h
+    cases pre <;> simp at h
+  · refine ⟨by rw [he]; exact checkedOpens_guarded _ _ _ _ _ _ _, ?_, ?_, ?_⟩
+    · intro p oi hm
+      rw [he] at hm
+      exact (guardedEvents_open _ _ _ _ _ _ _ _ _ hm).1
+    · intro hrej
+      obtain ⟨hge, hgo⟩ := guardedEvents_rej _ _ _ _ _ _ _ hrej
+      refine ⟨?_, ?_⟩
+      · intro p oi hm
+        rw [he, hge] at hm
+        simp at hm
+      · intro _
+        obtain ⟨hres, _⟩ := callSpec_result fs kfuel fuel cwdS cwd base loc offset length ep st
+        cases hr : (callSpec fs kfuel fuel cwdS cwd base loc offset length ep st).1 with
+        | raised => rfl
+        | ok bytes =>
+          obtain ⟨i, _, hor⟩ := hres bytes hr
+          rcases hor with ⟨reg, hg, _⟩ | ⟨hnil, _⟩
+          · rw [hgo] at hg; exact absurd hg (by simp)
+          · rw [he, hge] at hnil; exact absurd hnil (by simp)
+    · intro hnil
+      rw [he] at hnil
+      have := guardedEvents_head fs kfuel fuel cwdS cwd base loc
+      rw [hnil] at this
+      simp at this
+
+/-- the seeded pattern "tofile skips the check when the tensor is already mapped" is a sixth body
+that does NOT have the property: from a mapped state it opens the path with no check event -/
+example (e : Env) (i : Nat) :
+    (runBody e { raw := some i, arr := true }
+      [Stmt.ifNoRaw [Prim.check], Stmt.prim Prim.openCopy]).2.1 =
+      [Ev.openEv (tensorPath e.base e.loc) ((openFile e.fs e.kfuel e.cwd (tensorPath e.base e.loc)).map Prod.fst)] := by
+  unfold runBody
+  simp only [execStmts, execStmt, execPrim]
+  cases openFile e.fs e.kfuel e.cwd (tensorPath e.base e.loc) with
+  | none => simp
+  | some ir =>
+    obtain ⟨j, reg⟩ := ir
+    by_cases h : (e.fs.data j).length < e.offset + e.length <;> simp [h]
+
+/-- **C10_call_events**: whatever the cached state, the events of one call are either none at all
+(only a non-`tofile` entry point of a tensor with cached state: it is served from the mapping and
+opens nothing), or exactly the events of a read of an unmapped tensor (check, then open unless the
+check rejects): the check is made on EVERY call that opens the path; `tofile` always is such a
+call. -/
+theorem C10_call_events (fs : FS) (kfuel fuel : Nat) (cwdS : Str) (cwd : Loc) (base loc : Str)
+    (offset length : Nat) (ep : EntryPoint) (st : TState) :
+    ((call fs kfuel fuel cwdS cwd base loc offset length ep st).2.1 = [] ∧
+        ep ≠ EntryPoint.tofile ∧ st ≠ TState.fresh) ∨
+    (call fs kfuel fuel cwdS cwd base loc offset length ep st).2.1 =
+        (read fs kfuel fuel cwdS cwd base loc offset length ep).2 := by
+  rw [read_events, call_eq_spec]
+  exact callSpec_events _ _ _ _ _ _ _ _ _ _ _
+
+/-- **C10_call_open_safe**: with a non-empty base directory, every file opened by ANY call of any
+entry point, whatever the tensor's cached state (mapped or not), is a safe open. -/
+theorem C10_call_open_safe (fs : FS) (kfuel fuel : Nat) (cwd : Loc) (hcwd : RealDir fs cwd)
+    (hfuel : kfuel ≤ fuel) (base loc : Str) (offset length : Nat) (ep : EntryPoint) (st : TState)
+    (hb : base ≠ []) (p : Str) (i : Nat)
+    (h : Ev.openEv p (some i) ∈ (call fs kfuel fuel (render cwd) cwd base loc offset length ep st).2.1) :
+    p = tensorPath base loc ∧ SafeOpen fs kfuel fuel cwd base loc i := by
+  rw [call_eq_spec] at h
+  rcases callSpec_events fs kfuel fuel (render cwd) cwd base loc offset length ep st with ⟨he, _, _⟩ | he
+  · rw [he] at h; simp at h
+  · rw [he] at h
+    obtain ⟨hp, hrej, hoi⟩ := guardedEvents_open _ _ _ _ _ _ _ _ _ h
+    refine ⟨hp, ?_⟩
+    cases hg : guardedOpen fs kfuel fuel (render cwd) cwd base loc with
+    | none => rw [hg] at hoi; simp at hoi
+    | some ir =>
+      obtain ⟨j, reg⟩ := ir
+      rw [hg] at hoi
+      simp only [Option.map_some, Option.some.injEq] at hoi
+      subst hoi
+      obtain ⟨_, _, ho⟩ := guardedOpen_event _ _ _ _ _ _ _ _ _ hg
+      exact safeOpen_of_pass fs kfuel fuel cwd hcwd hfuel base loc i reg
+        (pass_of_not_rejecting _ _ _ _ _ _ _ hb hrej) ho
+
+/-- **C10_open_safe**: the same for a read of an unmapped tensor: every file a read opens (whatever
+it returns afterwards, e.g. it may still raise because the file is too short) is a safe open: no
+byte of a file outside the resolved base directory, of a file with several links or of a
+non-regular file is ever read. -/
+theorem C10_open_safe (fs : FS) (kfuel fuel : Nat) (cwd : Loc) (hcwd : RealDir fs cwd)
+    (hfuel : kfuel ≤ fuel) (base loc : Str) (offset length : Nat) (ep : EntryPoint) (hb : base ≠ [])
+    (p : Str) (i : Nat)
+    (h : Ev.openEv p (some i) ∈ (read fs kfuel fuel (render cwd) cwd base loc offset length ep).2) :
+    p = tensorPath base loc ∧ SafeOpen fs kfuel fuel cwd base loc i :=
+  C10_call_open_safe fs kfuel fuel cwd hcwd hfuel base loc offset length ep TState.fresh hb p i h
+
+/-- **C10_call_result**: bytes returned by a call are the requested slice of the inode this call
+opened (after its own check), or, when the call performed no event, of the inode the tensor had
+mapped before; and the inode mapped after the call is the one mapped before or the one this call
+opened. -/
+theorem C10_call_result (fs : FS) (kfuel fuel : Nat) (cwdS : Str) (cwd : Loc) (base loc : Str)
+    (offset length : Nat) (ep : EntryPoint) (st : TState) :
+    (∀ bytes, (call fs kfuel fuel cwdS cwd base loc offset length ep st).1 = ReadResult.ok bytes →
+      ∃ i, bytes = sliceOf (fs.data i) offset length ∧
+        (Ev.openEv (tensorPath base loc) (some i) ∈
+            (call fs kfuel fuel cwdS cwd base loc offset length ep st).2.1 ∨
+          ((call fs kfuel fuel cwdS cwd base loc offset length ep st).2.1 = [] ∧ st.raw = some i))) ∧
+    (∀ i, (call fs kfuel fuel cwdS cwd base loc offset length ep st).2.2.raw = some i →
+      st.raw = some i ∨ Ev.openEv (tensorPath base loc) (some i) ∈
+        (call fs kfuel fuel cwdS cwd base loc offset length ep st).2.1) := by
+  rw [call_eq_spec]
+  obtain ⟨h1, h2⟩ := callSpec_result fs kfuel fuel cwdS cwd base loc offset length ep st
+  refine ⟨?_, ?_⟩
+  · intro bytes hb
+    obtain ⟨i, hi, hor⟩ := h1 bytes hb
+    refine ⟨i, hi, ?_⟩
+    rcases hor with ⟨reg, hg, he⟩ | h
+    · left; rw [he]; exact (guardedOpen_event _ _ _ _ _ _ _ _ _ hg).1
+    · exact Or.inr h
+  · intro i hi
+    rcases h2 i hi with h | ⟨hg, he⟩
+    · exact Or.inl h
+    · right; rw [he]; exact (guardedOpen_event _ _ _ _ _ _ _ _ _ hg).1
 
 /-- **C10_read_safe**: with a non-empty base directory, whenever a read through any entry point
 returns bytes, they are the requested slice of the content of a regular file `i` that is a safe
-open (`SafeOpen`: at most one link, resolved location below the fully resolved base directory,
-reached through real directories only, lexically inside as well).  Any other location does not
-return bytes (`ReadResult` is `raised` otherwise; see C10_open_safe / C10_all_entry_points for
-"before any byte is read").  Hypotheses: the working directory is a chain of real directories and
-`os.getcwd()` is its rendering; the Python recursion bound is at least the kernel's ELOOP bound. -/
+open (`SafeOpen`: regular, at most one link, resolved location below the fully resolved base
+directory, reached through real directories only, lexically inside as well).  Any other location
+does not return bytes (`ReadResult` is `raised` otherwise; see C10_open_safe /
+C10_all_entry_points for "before any byte is read").  Hypotheses: the working directory is a chain
+of real directories and `os.getcwd()` is its rendering; the Python recursion bound is at least the
+kernel's ELOOP bound. -/
 theorem C10_read_safe (fs : FS) (kfuel fuel : Nat) (cwd : Loc) (hcwd : RealDir fs cwd)
     (hfuel : kfuel ≤ fuel) (base loc : Str) (offset length : Nat) (ep : EntryPoint)
     (bytes : List Nat) (hb : base ≠ [])
     (h : (read fs kfuel fuel (render cwd) cwd base loc offset length ep).1 = ReadResult.ok bytes) :
     ∃ i, bytes = ((fs.data i).drop offset).take length ∧ SafeOpen fs kfuel fuel cwd base loc i := by
   unfold read at h
-  cases hv : checkContainment fs kfuel fuel (render cwd) cwd base loc with
-  | rej1 => simp [hv] at h
-  | rej2 => simp [hv] at h
-  | rej3 => simp [hv] at h
-  | skipped => exact absurd (checkContainment_skipped _ _ _ _ _ _ _ hv) hb
-  | pass =>
-    simp only [hv] at h
-    cases ho : openFile fs kfuel cwd (tensorPath base loc) with
-    | none => simp [ho] at h
-    | some i =>
-      simp only [ho] at h
-      exact ⟨i, (produce_ok _ _ _ _ _ h).1, safeOpen_of_pass fs kfuel fuel cwd hcwd hfuel base loc i hv ho⟩
-
-theorem read_rej (fs : FS) (kfuel fuel : Nat) (cwdS : Str) (cwd : Loc) (base loc : Str)
-    (offset length : Nat) (ep : EntryPoint) (v : Verdict)
-    (hv : checkContainment fs kfuel fuel cwdS cwd base loc = v)
-    (h : v = Verdict.rej1 ∨ v = Verdict.rej2 ∨ v = Verdict.rej3) :
-    read fs kfuel fuel cwdS cwd base loc offset length ep = (ReadResult.raised, [Ev.check v]) := by
-  unfold read
-  rw [hv]
-  rcases h with h | h | h <;> subst h <;> rfl
-
-theorem read_open (fs : FS) (kfuel fuel : Nat) (cwdS : Str) (cwd : Loc) (base loc : Str)
-    (offset length : Nat) (ep : EntryPoint) (v : Verdict)
-    (hv : checkContainment fs kfuel fuel cwdS cwd base loc = v)
-    (h : v = Verdict.pass ∨ v = Verdict.skipped) :
-    read fs kfuel fuel cwdS cwd base loc offset length ep =
-      (match openFile fs kfuel cwd (tensorPath base loc) with
-       | none => (ReadResult.raised, [Ev.check v, Ev.openEv (tensorPath base loc) none])
-       | some i => (produce ep (fs.data i) offset length,
-                    [Ev.check v, Ev.openEv (tensorPath base loc) (some i)])) := by
-  unfold read
-  rw [hv]
-  rcases h with h | h <;> subst h <;> rfl
-
-/-- **C10_all_entry_points**: for each of the modelled entry points (numpy, tobytes, `__array__`,
-serialisation to raw bytes, tofile) the first event is the containment check; a rejecting verdict
-gives `raised` with no open event at all; an open event happens only after the verdict `pass`
-(or with an empty base directory, where the check is skipped by design) and only for
-`join(base, loc)`; the verdict and the file opened do not depend on the entry point. -/
-theorem C10_all_entry_points (fs : FS) (kfuel fuel : Nat) (cwdS : Str) (cwd : Loc) (base loc : Str)
-    (offset length : Nat) (ep : EntryPoint) (v : Verdict)
-    (hv : checkContainment fs kfuel fuel cwdS cwd base loc = v) :
-    (read fs kfuel fuel cwdS cwd base loc offset length ep).2.head? = some (Ev.check v) ∧
-    ((v = Verdict.rej1 ∨ v = Verdict.rej2 ∨ v = Verdict.rej3) →
-      read fs kfuel fuel cwdS cwd base loc offset length ep = (ReadResult.raised, [Ev.check v])) ∧
-    (∀ p i, Ev.openEv p i ∈ (read fs kfuel fuel cwdS cwd base loc offset length ep).2 →
-      p = tensorPath base loc ∧ (v = Verdict.pass ∨ (v = Verdict.skipped ∧ base = []))) ∧
-    (∀ ep', (read fs kfuel fuel cwdS cwd base loc offset length ep').2 =
-      (read fs kfuel fuel cwdS cwd base loc offset length ep).2) := by
-  have hcases : (v = Verdict.rej1 ∨ v = Verdict.rej2 ∨ v = Verdict.rej3) ∨
-      (v = Verdict.pass ∨ v = Verdict.skipped) := by cases v <;> simp
-  rcases hcases with hrej | hopen
-  · have e := fun ep => read_rej fs kfuel fuel cwdS cwd base loc offset length ep v hv hrej
-    refine ⟨by rw [e]; rfl, fun _ => e ep, ?_, fun ep' => by rw [e, e]⟩
-    intro p i hm
-    rw [e] at hm
-    simp at hm
-  · have e := fun ep => read_open fs kfuel fuel cwdS cwd base loc offset length ep v hv hopen
-    refine ⟨?_, ?_, ?_, ?_⟩
-    · rw [e]; split <;> rfl
-    · intro hrej
-      rcases hopen with h | h <;> subst h <;> simp at hrej
-    · intro p i hm
-      rw [e] at hm
-      have hp : p = tensorPath base loc := by
-        split at hm <;> simp at hm <;> exact hm.1
-      refine ⟨hp, ?_⟩
-      rcases hopen with h | h
-      · exact Or.inl h
-      · exact Or.inr ⟨h, checkContainment_skipped _ _ _ _ _ _ _ (hv.trans h)⟩
-    · intro ep'
-      rw [e, e]
-      split <;> rfl
+  simp only at h
+  obtain ⟨hres, _⟩ := C10_call_result fs kfuel fuel (render cwd) cwd base loc offset length ep TState.fresh
+  obtain ⟨i, hi, hor⟩ := hres bytes h
+  refine ⟨i, hi, ?_⟩
+  rcases hor with hev | ⟨_, hraw⟩
+  · exact (C10_call_open_safe fs kfuel fuel cwd hcwd hfuel base loc offset length ep TState.fresh hb _ i hev).2
+  · simp [TState.fresh] at hraw
 
 end IrVerif.Path
 
 namespace IrVerif.Path
-
-/-- **C10_open_safe**: with a non-empty base directory, for every entry point, every file a read
-opens (an open event carrying an inode in the trace; whatever the read returns afterwards, e.g. it
-may still raise because the file is too short) is a safe open: no byte of a file outside the
-resolved base directory, or of a file with several links, is ever read. -/
-theorem C10_open_safe (fs : FS) (kfuel fuel : Nat) (cwd : Loc) (hcwd : RealDir fs cwd)
-    (hfuel : kfuel ≤ fuel) (base loc : Str) (offset length : Nat) (ep : EntryPoint) (hb : base ≠ [])
-    (p : Str) (i : Nat)
-    (h : Ev.openEv p (some i) ∈ (read fs kfuel fuel (render cwd) cwd base loc offset length ep).2) :
-    p = tensorPath base loc ∧ SafeOpen fs kfuel fuel cwd base loc i := by
-  obtain ⟨_, _, hopen, _⟩ := C10_all_entry_points fs kfuel fuel (render cwd) cwd base loc offset length
-    ep _ rfl
-  obtain ⟨hp, hv⟩ := hopen p (some i) h
-  have hpass : checkContainment fs kfuel fuel (render cwd) cwd base loc = Verdict.pass := by
-    rcases hv with hv | ⟨_, hb'⟩
-    · exact hv
-    · exact absurd hb' hb
-  refine ⟨hp, safeOpen_of_pass fs kfuel fuel cwd hcwd hfuel base loc i hpass ?_⟩
-  rw [read_open fs kfuel fuel (render cwd) cwd base loc offset length ep _ hpass (Or.inl rfl)] at h
-  cases ho : openFile fs kfuel cwd (tensorPath base loc) with
-  | none => simp [ho] at h
-  | some j =>
-    simp only [ho] at h
-    simp at h
-    rw [h.2]
 
 /-- **C10_load_base_is_model_dir**: for every spelling of the model path `p` whose last piece is a
 file name (bare name, relative, absolute, "./x", repeated or leading separators, through symbolic
@@ -287,11 +398,11 @@ ANY later working directory `cwd'`, to a directory `d`, and `d` is exactly the d
 the kernel looked up the file name at load time: the model's directory. -/
 theorem C10_load_base_is_model_dir (fs : FS) (f : Nat) (cwd cwd' : Loc) (hcwd : RealDir fs cwd)
     (p : Str) (ml : Loc) (hn : Clean (tailPart p)) (h : kresolve fs f cwd p true = some ml) :
-    ∃ d, kresolve fs f cwd' (loadBaseJoin (render cwd) p) true = some d ∧
+    ∃ d, kresolve fs f cwd' (loadBase (render cwd) p) true = some d ∧
       fs.get d = some Node.dir ∧ walk fs f d [tailPart p] true = some ml := by
   obtain ⟨d, h1, h2, h3⟩ := load_base_is_model_dir fs f cwd p ml hn h
   refine ⟨d, ?_, h2, h3⟩
-  unfold loadBaseJoin
+  unfold loadBase
   rw [kresolve_join_cwd fs f cwd cwd' hcwd _ (loadDir_ne_nil p)]
   exact h1
 
@@ -304,346 +415,100 @@ theorem C10_load_read_safe (fs : FS) (kfuel fuel : Nat) (cwd cwd' : Loc) (hcwd :
     (hcwd' : RealDir fs cwd') (hfuel : kfuel ≤ fuel) (p : Str) (ml : Loc) (hn : Clean (tailPart p))
     (hopen : kresolve fs kfuel cwd p true = some ml)
     (loc : Str) (offset length : Nat) (ep : EntryPoint) (bytes : List Nat)
-    (h : (read fs kfuel fuel (render cwd') cwd' (loadBaseJoin (render cwd) p) loc offset length ep).1 =
+    (h : (read fs kfuel fuel (render cwd') cwd' (loadBase (render cwd) p) loc offset length ep).1 =
       ReadResult.ok bytes) :
-    ∃ d l i, kresolve fs kfuel cwd' (loadBaseJoin (render cwd) p) true = some d ∧
+    ∃ d l i, kresolve fs kfuel cwd' (loadBase (render cwd) p) true = some d ∧
       fs.get d = some Node.dir ∧ walk fs kfuel d [tailPart p] true = some ml ∧
-      kresolve fs kfuel cwd' (tensorPath (loadBaseJoin (render cwd) p) loc) true = some l ∧ d <+: l ∧
+      kresolve fs kfuel cwd' (tensorPath (loadBase (render cwd) p) loc) true = some l ∧ d <+: l ∧
       fs.get l = some (Node.file i) ∧ fs.nlink i ≤ 1 ∧
       bytes = ((fs.data i).drop offset).take length := by
   obtain ⟨d, hd1, hd2, hd3⟩ := C10_load_base_is_model_dir fs kfuel cwd cwd' hcwd p ml hn hopen
-  have hne : loadBaseJoin (render cwd) p ≠ [] := pjoin_ne_nil _ _ (loadDir_ne_nil p)
+  have hne : loadBase (render cwd) p ≠ [] := pjoin_ne_nil _ _ (loadDir_ne_nil p)
   obtain ⟨i, hbytes, l, hk, hg, hnl, _, hbl, _, _⟩ :=
-    C10_read_safe fs kfuel fuel cwd' hcwd' hfuel (loadBaseJoin (render cwd) p) loc offset length ep bytes
+    C10_read_safe fs kfuel fuel cwd' hcwd' hfuel (loadBase (render cwd) p) loc offset length ep bytes
       hne h
   exact ⟨d, l, i, hd1, hd2, hd3, hk, hbl d hd1, hg, hnl, hbytes⟩
 
 example : tailPart "a//m.onnx".toList = "m.onnx".toList ∧ loadDir "a//m.onnx".toList = "a".toList := by
   decide
-example : loadBaseJoin "/w".toList "x/../m.onnx".toList = "/w/x/..".toList := by decide
-example : loadBaseAbs "/w".toList "x/../m.onnx".toList = "/w".toList := by decide
+/-- D183: the join form keeps "x/.." for the kernel to resolve; `abspath` collapsed it lexically -/
+example : loadBase "/w".toList "x/../m.onnx".toList = "/w/x/..".toList ∧
+    loadBaseAbs "/w".toList "x/../m.onnx".toList = "/w".toList := by decide
 
 end IrVerif.Path
 
-/-! ### non-vacuity of C10_read_safe: a tree /b/f on which a guarded read returns bytes -/
+/-! ### link counts and the base directory of a safe open -/
 namespace IrVerif.Path
 
-def exFS : FS where
-  node := fun l => if l = [['b']] then some Node.dir
-    else if l = [['b'], ['f']] then some (Node.file 1) else none
-  dnlink := fun _ => 2
-  nlink := fun _ => 1
-  data := fun _ => [10, 20, 30]
+/-- link counts are sound: an inode reachable under two different names reports at least 2 links
+(`st_nlink` counts the names of the inode; the harness checks this on every described tree) -/
+def LinkCountSound (fs : FS) : Prop :=
+  ∀ l1 l2 i, l1 ≠ l2 → fs.get l1 = some (Node.file i) → fs.get l2 = some (Node.file i) →
+    2 ≤ fs.nlink i
 
-theorem exFS_b : RealDir exFS [['b']] :=
-  ⟨by simpa using Chain.snoc (RealDir.root exFS) (c := ['b']) ⟨by decide, by decide, by decide, by decide⟩, by decide⟩
+/-- **C10_single_name**: with sound link counts, the regular file of a safe open has no other name
+anywhere in the tree: its only location is the one inside the resolved base directory (this is
+what the link-count layer is for: no hard link from outside). -/
+theorem C10_single_name (fs : FS) (kfuel fuel : Nat) (cwd : Loc) (base loc : Str) (i : Nat)
+    (hs : LinkCountSound fs) (h : SafeOpen fs kfuel fuel cwd base loc i) :
+    ∃ l, kresolve fs kfuel cwd (tensorPath base loc) true = some l ∧
+      fs.get l = some (Node.file i) ∧ ∀ l', fs.get l' = some (Node.file i) → l' = l := by
+  obtain ⟨l, hk, hg, hn, _⟩ := h
+  refine ⟨l, hk, hg, ?_⟩
+  intro l' hg'
+  apply Classical.byContradiction
+  intro hne
+  have := hs l' l i hne hg' hg
+  omega
 
-theorem exFS_bf : Chain exFS [['b'], ['f']] := by
-  simpa using Chain.snoc exFS_b (c := ['f']) ⟨by decide, by decide, by decide, by decide⟩
-
-example : (read exFS 40 40 (render []) [] "/b".toList "f".toList 0 3 EntryPoint.numpy).1 =
-    ReadResult.ok [10, 20, 30] := by
-  have hk : kresolve exFS 40 [] "/b/f".toList true = some [['b'], ['f']] :=
-    kresolve_render exFS 40 [] _ exFS_bf (Node.file 1) (by decide) (by intro t; simp)
-  have hkb : kresolve exFS 40 [] "/b".toList true = some [['b']] :=
-    kresolve_render exFS 40 [] _ exFS_b.1 Node.dir (by decide) (by intro t; simp)
-  have hp : tensorPath "/b".toList "f".toList = "/b/f".toList := by decide
-  have r1 := (realpath_of_kresolve exFS 40 40 [] (RealDir.root exFS) _ 40 _ hk (Nat.le_refl _)).1
-  have r2 := (realpath_of_kresolve exFS 40 40 [] (RealDir.root exFS) _ 40 _ hkb (Nat.le_refl _)).1
-  have hv : checkContainment exFS 40 40 (render []) [] "/b".toList "f".toList = Verdict.pass := by
-    have c1 : check1 (render []) "/b".toList "f".toList = true := by decide
-    have c2 : check2 exFS 40 40 (render []) [] "/b".toList "f".toList = true := by
-      unfold check2; rw [hp, r1, r2]; decide
-    have c3 : check3 exFS 40 40 (render []) [] "/b".toList "f".toList = true := by
-      unfold check3 statNlink
-      rw [hp, r1]
-      have : kresolve exFS 40 [] (render [['b'], ['f']]) true = some [['b'], ['f']] := hk
-      rw [this]
-      decide
-    unfold checkContainment
-    rw [if_neg (by decide), if_neg (by rw [c1]; simp), if_neg (by rw [c2]; simp),
-      if_neg (by rw [c3]; simp)]
-  have ho : openFile exFS 40 [] "/b/f".toList = some 1 := by
-    unfold openFile; rw [hk]; decide
-  unfold read
-  rw [hv]
-  simp only [hp, ho]
-  decide
+/-- **C10_base_resolves**: when the kernel resolves `join(base, loc)` for a relative location, it
+resolves the base directory itself too, so the clause "below the kernel's own resolution of the
+base" of `SafeOpen` is not vacuous for relative locations. -/
+theorem C10_base_resolves (fs : FS) (f : Nat) (cwd : Loc) (base loc : Str) (l : Loc)
+    (hb : base ≠ []) (hrel : isabs loc = false)
+    (h : kresolve fs f cwd (tensorPath base loc) true = some l) :
+    ∃ bl, kresolve fs f cwd base true = some bl := by
+  unfold kresolve at h ⊢
+  simp only [hb, if_false]
+  have hlne : splitSep loc ≠ [] := splitSep_ne_nil loc
+  unfold tensorPath pjoin at h
+  simp only [hrel, Bool.false_eq_true, if_false, hb, false_or] at h
+  by_cases he : endsWithSep base = true
+  · simp only [he, if_true] at h
+    obtain ⟨q, hq⟩ := (endsWithSep_iff base).mp he
+    have hne : base ++ loc ≠ [] := by simp [hb]
+    simp only [hne, if_false] at h
+    have hab : isabs (base ++ loc) = isabs base := isabs_append _ _ hb
+    have hsp : splitSep (base ++ loc) = splitSep q ++ splitSep loc := by
+      rw [hq, List.append_assoc, List.singleton_append, splitSep_append_sep]
+    have hsb : splitSep base = splitSep q ++ [[]] := by
+      rw [hq, splitSep_append_sep]; simp [splitSep]
+    simp only [startLoc, hab] at h
+    rw [hsp, walk_append fs f _ true hlne] at h
+    obtain ⟨d, hd, hrest⟩ := Option.bind_eq_some' h
+    simp only [startLoc]
+    rw [hsb, walk_append fs f [[]] true (by simp), hd]
+    simp only [Option.bind_some]
+    cases hl : splitSep loc with
+    | nil => exact absurd hl hlne
+    | cons c rest =>
+      rw [hl] at hrest
+      obtain ⟨hdir, _⟩ := walk_cons_inv fs f d c rest l hrest
+      exact ⟨d, by rw [walk_step_skip fs f d [] [] true hdir (Or.inl rfl), walk_nil]⟩
+  · have he' : endsWithSep base = false := by simpa using he
+    simp only [he', Bool.false_eq_true, if_false] at h
+    have hne : base ++ '/' :: loc ≠ [] := by simp
+    simp only [hne, if_false] at h
+    have hab : isabs (base ++ '/' :: loc) = isabs base := isabs_append _ _ hb
+    simp only [startLoc, hab] at h
+    rw [splitSep_append_sep, walk_append fs f _ true hlne] at h
+    obtain ⟨d, hd, _⟩ := Option.bind_eq_some' h
+    exact ⟨d, hd⟩
 
 end IrVerif.Path
 
-/-! ### calls on a tensor with cached state, sequences of calls -/
+/-! ### sequences of calls on one tensor -/
 namespace IrVerif.Path
-
-theorem loadStep_events (fs : FS) (kfuel fuel : Nat) (cwdS : Str) (cwd : Loc) (base loc : Str)
-    (offset length : Nat) (st : TState) (ep : EntryPoint) :
-    (loadStep fs kfuel fuel cwdS cwd base loc offset length st).2.1 =
-      (read fs kfuel fuel cwdS cwd base loc offset length ep).2 := by
-  have hep := (C10_all_entry_points fs kfuel fuel cwdS cwd base loc offset length ep _ rfl).2.2.2
-    EntryPoint.numpy
-  unfold loadStep
-  simp only
-  split
-  · exact hep
-  · split
-    · exact hep
-    · split <;> exact hep
-
-theorem openedIno_event (fs : FS) (kfuel fuel : Nat) (cwdS : Str) (cwd : Loc) (base loc : Str)
-    (offset length : Nat) (ep : EntryPoint) (i : Nat)
-    (h : openedIno fs kfuel fuel cwdS cwd base loc = some i) :
-    Ev.openEv (tensorPath base loc) (some i) ∈
-      (read fs kfuel fuel cwdS cwd base loc offset length ep).2 := by
-  unfold openedIno at h
-  unfold read
-  cases hv : checkContainment fs kfuel fuel cwdS cwd base loc <;> simp only [hv] at h ⊢ <;>
-    first
-    | exact absurd h (by simp)
-    | (rw [h]; simp)
-
-/-- the state after a load maps what was mapped before, or the inode this very load opened -/
-theorem loadStep_raw (fs : FS) (kfuel fuel : Nat) (cwdS : Str) (cwd : Loc) (base loc : Str)
-    (offset length : Nat) (st : TState) (i : Nat)
-    (h : (loadStep fs kfuel fuel cwdS cwd base loc offset length st).2.2.raw = some i) :
-    st.raw = some i ∨ openedIno fs kfuel fuel cwdS cwd base loc = some i := by
-  unfold loadStep at h
-  simp only at h
-  split at h
-  · exact Or.inl h
-  · rename_i j hj
-    split at h
-    · exact Or.inl h
-    · split at h <;> (simp only [Option.some.injEq] at h; subst h; exact Or.inr hj)
-
-theorem loadThen_events (fs : FS) (kfuel fuel : Nat) (cwdS : Str) (cwd : Loc) (base loc : Str)
-    (offset length : Nat) (st : TState) (fin : TState → TState) :
-    (loadThen fs kfuel fuel cwdS cwd base loc offset length st fin).2.1 =
-      (loadStep fs kfuel fuel cwdS cwd base loc offset length st).2.1 := by
-  unfold loadThen
-  simp only
-  split <;> rfl
-
-/-- **C10_call_events**: whatever the cached state, the events of one call of an entry point are
-either none at all (only for a non-`tofile` entry point of a tensor that is already mapped: it is
-served from the mapping and opens nothing), or exactly the check-then-open events of a guarded
-read (`read`): the check is made on EVERY call that opens the path; `tofile` always is such a
-call and its result does not depend on the cached state. -/
-theorem C10_call_events (fs : FS) (kfuel fuel : Nat) (cwdS : Str) (cwd : Loc) (base loc : Str)
-    (offset length : Nat) (ep : EntryPoint) (st : TState) :
-    ((call fs kfuel fuel cwdS cwd base loc offset length ep st).2.1 = [] ∧
-        ep ≠ EntryPoint.tofile ∧ st.raw ≠ none) ∨
-    (call fs kfuel fuel cwdS cwd base loc offset length ep st).2.1 =
-        (read fs kfuel fuel cwdS cwd base loc offset length ep).2 := by
-  have hl := loadStep_events fs kfuel fuel cwdS cwd base loc offset length st ep
-  have ht := loadThen_events fs kfuel fuel cwdS cwd base loc offset length st
-  have hep := (C10_all_entry_points fs kfuel fuel cwdS cwd base loc offset length EntryPoint.tofile _ rfl).2.2.2 ep
-  cases ep with
-  | tofile => right; rfl
-  | tobytes =>
-    unfold call
-    cases hr : st.raw with
-    | some i => left; simp
-    | none => right; simp only; rw [ht, hl]
-  | numpy =>
-    unfold call
-    simp only
-    split
-    · rename_i i ha hr; left; simp [hr]
-    · right; rw [ht, hl]
-  | array =>
-    unfold call
-    simp only
-    split
-    · rename_i i ha hr; left; simp [hr]
-    · right; rw [ht, hl]
-  | serializeRaw =>
-    unfold call
-    simp only
-    split
-    · rename_i i ha hr; left; simp [hr]
-    · right; rw [ht, hl]
-
-theorem read_ok (fs : FS) (kfuel fuel : Nat) (cwdS : Str) (cwd : Loc) (base loc : Str)
-    (offset length : Nat) (ep : EntryPoint) (bytes : List Nat)
-    (h : (read fs kfuel fuel cwdS cwd base loc offset length ep).1 = ReadResult.ok bytes) :
-    ∃ i, openedIno fs kfuel fuel cwdS cwd base loc = some i ∧
-      bytes = sliceOf (fs.data i) offset length := by
-  unfold read at h
-  unfold openedIno
-  cases hv : checkContainment fs kfuel fuel cwdS cwd base loc <;> simp only [hv] at h ⊢ <;>
-    first
-    | exact absurd h (by simp)
-    | (cases ho : openFile fs kfuel cwd (tensorPath base loc) with
-       | none => simp [ho] at h
-       | some i =>
-         simp only [ho] at h
-         exact ⟨i, rfl, (produce_ok _ _ _ _ _ h).1⟩)
-
-theorem loadStep_ok (fs : FS) (kfuel fuel : Nat) (cwdS : Str) (cwd : Loc) (base loc : Str)
-    (offset length : Nat) (st : TState)
-    (h : (loadStep fs kfuel fuel cwdS cwd base loc offset length st).1 = true) :
-    ∃ i, openedIno fs kfuel fuel cwdS cwd base loc = some i ∧
-      (loadStep fs kfuel fuel cwdS cwd base loc offset length st).2.2 = { raw := some i, arr := true } := by
-  unfold loadStep at h ⊢
-  cases hoi : openedIno fs kfuel fuel cwdS cwd base loc with
-  | none => simp [hoi] at h
-  | some j =>
-    simp only [hoi] at h ⊢
-    by_cases h1 : fs.data j = []
-    · simp [h1] at h
-    · by_cases h2 : (fs.data j).length < offset + length
-      · simp [h1, h2] at h
-      · exact ⟨j, rfl, by simp [h1, h2]⟩
-
-theorem loadThen_ok (fs : FS) (kfuel fuel : Nat) (cwdS : Str) (cwd : Loc) (base loc : Str)
-    (offset length : Nat) (st : TState) (fin : TState → TState) (bytes : List Nat)
-    (h : (loadThen fs kfuel fuel cwdS cwd base loc offset length st fin).1 = ReadResult.ok bytes) :
-    ∃ i, openedIno fs kfuel fuel cwdS cwd base loc = some i ∧
-      bytes = sliceOf (fs.data i) offset length := by
-  unfold loadThen at h
-  simp only at h
-  split at h
-  · rename_i i h1 h2
-    obtain ⟨j, hj, hst⟩ := loadStep_ok _ _ _ _ _ _ _ _ _ _ h1
-    rw [hst] at h2
-    simp only [Option.some.injEq] at h2
-    subst h2
-    simp only [ReadResult.ok.injEq] at h
-    exact ⟨j, hj, h.symm⟩
-  · simp at h
-
-theorem loadThen_raw (fs : FS) (kfuel fuel : Nat) (cwdS : Str) (cwd : Loc) (base loc : Str)
-    (offset length : Nat) (st : TState) (fin : TState → TState)
-    (hfin : ∀ s i, (fin s).raw = some i → s.raw = some i) (i : Nat)
-    (h : (loadThen fs kfuel fuel cwdS cwd base loc offset length st fin).2.2.raw = some i) :
-    st.raw = some i ∨ openedIno fs kfuel fuel cwdS cwd base loc = some i := by
-  unfold loadThen at h
-  simp only at h
-  split at h
-  · exact loadStep_raw _ _ _ _ _ _ _ _ _ _ _ (hfin _ _ h)
-  · exact loadStep_raw _ _ _ _ _ _ _ _ _ _ _ h
-
-/-- **C10_call_open_safe**: with a non-empty base directory, every file opened by ANY call of any
-entry point, whatever the tensor's cached state (mapped or not), is a safe open. -/
-theorem C10_call_open_safe (fs : FS) (kfuel fuel : Nat) (cwd : Loc) (hcwd : RealDir fs cwd)
-    (hfuel : kfuel ≤ fuel) (base loc : Str) (offset length : Nat) (ep : EntryPoint) (st : TState)
-    (hb : base ≠ []) (p : Str) (i : Nat)
-    (h : Ev.openEv p (some i) ∈ (call fs kfuel fuel (render cwd) cwd base loc offset length ep st).2.1) :
-    p = tensorPath base loc ∧ SafeOpen fs kfuel fuel cwd base loc i := by
-  rcases C10_call_events fs kfuel fuel (render cwd) cwd base loc offset length ep st with ⟨he, _, _⟩ | he
-  · rw [he] at h; simp at h
-  · rw [he] at h
-    exact C10_open_safe fs kfuel fuel cwd hcwd hfuel base loc offset length ep hb p i h
-
-/-- **C10_call_result**: bytes returned by a call are the requested slice of the inode this call
-opened (after its own check), or, when the call opened nothing, of the inode the tensor had mapped
-before; and the inode mapped after the call is the one mapped before or the one this call opened. -/
-theorem C10_call_result (fs : FS) (kfuel fuel : Nat) (cwdS : Str) (cwd : Loc) (base loc : Str)
-    (offset length : Nat) (ep : EntryPoint) (st : TState) :
-    (∀ bytes, (call fs kfuel fuel cwdS cwd base loc offset length ep st).1 = ReadResult.ok bytes →
-      ∃ i, bytes = sliceOf (fs.data i) offset length ∧
-        (Ev.openEv (tensorPath base loc) (some i) ∈
-            (call fs kfuel fuel cwdS cwd base loc offset length ep st).2.1 ∨
-          ((call fs kfuel fuel cwdS cwd base loc offset length ep st).2.1 = [] ∧ st.raw = some i))) ∧
-    (∀ i, (call fs kfuel fuel cwdS cwd base loc offset length ep st).2.2.raw = some i →
-      st.raw = some i ∨ Ev.openEv (tensorPath base loc) (some i) ∈
-        (call fs kfuel fuel cwdS cwd base loc offset length ep st).2.1) := by
-  have hev := fun i (h : openedIno fs kfuel fuel cwdS cwd base loc = some i) =>
-    openedIno_event fs kfuel fuel cwdS cwd base loc offset length ep i h
-  have hl := loadStep_events fs kfuel fuel cwdS cwd base loc offset length st ep
-  have ht := loadThen_events fs kfuel fuel cwdS cwd base loc offset length st
-  have hfinid : ∀ (s : TState) (i : Nat), (id s).raw = some i → s.raw = some i := fun _ _ h => h
-  cases ep with
-  | tofile =>
-    refine ⟨?_, fun i h => Or.inl h⟩
-    intro bytes h
-    obtain ⟨i, hi, hb⟩ := read_ok _ _ _ _ _ _ _ _ _ _ _ h
-    exact ⟨i, hb, Or.inl (hev i hi)⟩
-  | tobytes =>
-    unfold call
-    cases hr : st.raw with
-    | some j =>
-      simp only
-      refine ⟨?_, fun i h => Or.inl (hr ▸ h)⟩
-      intro bytes h
-      simp only [ReadResult.ok.injEq] at h
-      exact ⟨j, h.symm, Or.inr ⟨by simp, by simp⟩⟩
-    | none =>
-      simp only
-      refine ⟨?_, ?_⟩
-      · intro bytes h
-        obtain ⟨i, hi, hb⟩ := loadThen_ok _ _ _ _ _ _ _ _ _ _ _ _ h
-        exact ⟨i, hb, Or.inl (by rw [ht, hl]; exact hev i hi)⟩
-      · intro i h
-        rcases loadThen_raw _ _ _ _ _ _ _ _ _ _ _ hfinid i h with h' | h'
-        · rw [hr] at h'; exact absurd h' (by simp)
-        · exact Or.inr (by rw [ht, hl]; exact hev i h')
-  | numpy =>
-    unfold call
-    simp only
-    have hfin : ∀ (s : TState) (i : Nat),
-        ((fun (s : TState) => if EntryPoint.numpy = EntryPoint.serializeRaw then TState.fresh else s) s).raw
-          = some i → s.raw = some i := by
-      intro s i h; simpa using h
-    split
-    · rename_i j ha hr
-      refine ⟨?_, ?_⟩
-      · intro bytes h
-        simp only [ReadResult.ok.injEq] at h
-        exact ⟨j, h.symm, Or.inr ⟨rfl, hr⟩⟩
-      · intro i h; exact Or.inl (hfin _ _ h)
-    · refine ⟨?_, ?_⟩
-      · intro bytes h
-        obtain ⟨i, hi, hb⟩ := loadThen_ok _ _ _ _ _ _ _ _ _ _ _ _ h
-        exact ⟨i, hb, Or.inl (by rw [ht, hl]; exact hev i hi)⟩
-      · intro i h
-        rcases loadThen_raw _ _ _ _ _ _ _ _ _ _ _ hfin i h with h' | h'
-        · exact Or.inl h'
-        · exact Or.inr (by rw [ht, hl]; exact hev i h')
-  | array =>
-    unfold call
-    simp only
-    have hfin : ∀ (s : TState) (i : Nat),
-        ((fun (s : TState) => if EntryPoint.array = EntryPoint.serializeRaw then TState.fresh else s) s).raw
-          = some i → s.raw = some i := by
-      intro s i h; simpa using h
-    split
-    · rename_i j ha hr
-      refine ⟨?_, ?_⟩
-      · intro bytes h
-        simp only [ReadResult.ok.injEq] at h
-        exact ⟨j, h.symm, Or.inr ⟨rfl, hr⟩⟩
-      · intro i h; exact Or.inl (hfin _ _ h)
-    · refine ⟨?_, ?_⟩
-      · intro bytes h
-        obtain ⟨i, hi, hb⟩ := loadThen_ok _ _ _ _ _ _ _ _ _ _ _ _ h
-        exact ⟨i, hb, Or.inl (by rw [ht, hl]; exact hev i hi)⟩
-      · intro i h
-        rcases loadThen_raw _ _ _ _ _ _ _ _ _ _ _ hfin i h with h' | h'
-        · exact Or.inl h'
-        · exact Or.inr (by rw [ht, hl]; exact hev i h')
-  | serializeRaw =>
-    unfold call
-    simp only
-    have hfin : ∀ (s : TState) (i : Nat),
-        ((fun (s : TState) => if EntryPoint.serializeRaw = EntryPoint.serializeRaw then TState.fresh else s) s).raw
-          = some i → s.raw = some i := by
-      intro s i h; simp [TState.fresh] at h
-    split
-    · rename_i j ha hr
-      refine ⟨?_, ?_⟩
-      · intro bytes h
-        simp only [ReadResult.ok.injEq] at h
-        exact ⟨j, h.symm, Or.inr ⟨rfl, hr⟩⟩
-      · intro i h; exact Or.inl (hfin _ _ h)
-    · refine ⟨?_, ?_⟩
-      · intro bytes h
-        obtain ⟨i, hi, hb⟩ := loadThen_ok _ _ _ _ _ _ _ _ _ _ _ _ h
-        exact ⟨i, hb, Or.inl (by rw [ht, hl]; exact hev i hi)⟩
-      · intro i h
-        rcases loadThen_raw _ _ _ _ _ _ _ _ _ _ _ hfin i h with h' | h'
-        · exact Or.inl h'
-        · exact Or.inr (by rw [ht, hl]; exact hev i h')
 
 /-- every log entry of a session is the output of a `call` in the tree / base of that moment -/
 theorem runSess_entries (kfuel fuel : Nat) (cwdS : Str) (cwd : Loc) (loc : Str) (offset length : Nat) :
@@ -666,86 +531,209 @@ theorem runSess_entries (kfuel fuel : Nat) (cwdS : Str) (cwd : Loc) (loc : Str) 
       · exact ih _ e he
 
 theorem runSess_bytes (kfuel fuel : Nat) (cwdS : Str) (cwd : Loc) (loc : Str) (offset length : Nat) :
-    ∀ (steps : List Step) (s : Sess) (P : Nat → Prop), (∀ i, s.st.raw = some i → P i) →
-      ∀ e ∈ (runSess kfuel fuel cwdS cwd loc offset length s steps).2, ∀ bytes,
-        e.res = ReadResult.ok bytes →
+    ∀ (steps : List Step) (s : Sess) (P : Str → Nat → Prop), (∀ i, s.st.raw = some i → P s.base i) →
+      ∀ (pre : List LogEntry) (e : LogEntry) (post : List LogEntry),
+        (runSess kfuel fuel cwdS cwd loc offset length s steps).2 = pre ++ e :: post →
+        ∀ bytes, e.res = ReadResult.ok bytes →
         ∃ i, bytes = sliceOf (e.fs.data i) offset length ∧
-          (P i ∨ ∃ e' ∈ (runSess kfuel fuel cwdS cwd loc offset length s steps).2,
-            Ev.openEv (tensorPath e'.base loc) (some i) ∈ e'.events) := by
+          (P e.base i ∨ ∃ e' ∈ pre ++ [e], e'.base = e.base ∧
+            Ev.openEv (tensorPath e.base loc) (some i) ∈ e'.events) := by
   intro steps
   induction steps with
-  | nil => intro s P _ e he; simp [runSess] at he
+  | nil =>
+    intro s P _ pre e post hlog
+    simp [runSess] at hlog
   | cons x xs ih =>
-    intro s P hP e he bytes hb
+    intro s P hP pre e post hlog bytes hb
     cases x with
     | setFS fs =>
-      simp only [runSess, stepSess] at he ⊢
-      exact ih { s with fs := fs } P hP e he bytes hb
+      simp only [runSess, stepSess] at hlog
+      exact ih { s with fs := fs } P hP pre e post hlog bytes hb
     | setBase b =>
-      simp only [runSess, stepSess] at he ⊢
-      exact ih { s with base := b } P hP e he bytes hb
+      simp only [runSess, stepSess] at hlog
+      refine ih { s with base := b, st := if b = s.base then s.st else TState.fresh } P ?_ pre e post hlog bytes hb
+      intro i hi
+      simp only at hi ⊢
+      by_cases hbe : b = s.base
+      · simp only [hbe, if_true] at hi
+        rw [hbe]; exact hP i hi
+      · simp [hbe, TState.fresh] at hi
     | release =>
-      simp only [runSess, stepSess] at he ⊢
-      exact ih { s with st := TState.fresh } P (by intro i h; simp [TState.fresh] at h) e he bytes hb
+      simp only [runSess, stepSess] at hlog
+      exact ih { s with st := TState.fresh } P (by intro i h; simp [TState.fresh] at h) pre e post hlog bytes hb
     | call ep =>
-      simp only [runSess, stepSess, List.mem_cons] at he ⊢
+      simp only [runSess, stepSess] at hlog
       obtain ⟨hres, hstate⟩ := C10_call_result s.fs kfuel fuel cwdS cwd s.base loc offset length ep s.st
-      rcases he with rfl | he
-      · obtain ⟨i, hi, hor⟩ := hres bytes hb
+      cases pre with
+      | nil =>
+        simp only [List.nil_append, List.cons.injEq] at hlog
+        obtain ⟨he, _⟩ := hlog
+        subst he
+        obtain ⟨i, hi, hor⟩ := hres bytes hb
         refine ⟨i, hi, ?_⟩
         rcases hor with hev | ⟨_, hraw⟩
-        · exact Or.inr ⟨_, Or.inl rfl, hev⟩
+        · exact Or.inr ⟨_, by simp, rfl, hev⟩
         · exact Or.inl (hP i hraw)
-      · have := ih _ (fun i => P i ∨ Ev.openEv (tensorPath s.base loc) (some i) ∈
-            (call s.fs kfuel fuel cwdS cwd s.base loc offset length ep s.st).2.1)
+      | cons e0 pre' =>
+        simp only [List.cons_append, List.cons.injEq] at hlog
+        obtain ⟨he0, hrest⟩ := hlog
+        have := ih _ (fun b i => P b i ∨ (b = s.base ∧ Ev.openEv (tensorPath s.base loc) (some i) ∈
+            (call s.fs kfuel fuel cwdS cwd s.base loc offset length ep s.st).2.1))
           (by
             intro i h
             rcases hstate i h with h' | h'
             · exact Or.inl (hP i h')
-            · exact Or.inr h') e he bytes hb
+            · exact Or.inr ⟨rfl, h'⟩) pre' e post hrest bytes hb
         obtain ⟨i, hi, hor⟩ := this
         refine ⟨i, hi, ?_⟩
-        rcases hor with (hp | hev) | ⟨e', he', hev⟩
+        rcases hor with (hp | ⟨hbase, hev⟩) | ⟨e', he', hb', hev⟩
         · exact Or.inl hp
-        · exact Or.inr ⟨_, Or.inl rfl, hev⟩
-        · exact Or.inr ⟨e', Or.inr he', hev⟩
+        · refine Or.inr ⟨e0, by simp, ?_, ?_⟩
+          · rw [← he0]; exact hbase.symm
+          · rw [← he0, hbase]; exact hev
+        · exact Or.inr ⟨e', by simp only [List.cons_append, List.mem_cons]; exact Or.inr he', hb', hev⟩
 
 /-- **C10_session_safe**: for every sequence of steps in the life of an external tensor (calls of
-any entry point, arbitrary changes of the tree between calls, re-assignments of `base_dir`,
-`release()`), starting unmapped: (1) every file opened by any call is a safe open with respect to
-the tree and the base directory at the time of THAT call (every call that opens the path makes the
-check first; a cached mapping never replaces the check); (2) every byte sequence a call returns is
-the slice of an inode that this call or an earlier call of the sequence opened (so, by (1), opened
-safely at that time): a mapped tensor is served from its mapping, which was obtained through a
-checked open. -/
+any entry point, arbitrary changes of the tree between calls, re-assignments of `base_dir` (which
+drop the mapping, D184), `release()`), starting unmapped, and for every call `e` of the sequence
+(`pre` = the calls before it): (1) every file `e` opens is a safe open with respect to the tree
+and the base directory at the time of `e`; (2) every byte sequence `e` returns is the slice of an
+inode opened by `e` itself or by an EARLIER call `e'` of the sequence made under the SAME base
+directory as `e`'s, and that open was a safe open with respect to `e`'s base directory (in the
+tree of that moment): a mapped tensor is served from a mapping obtained through an open checked
+against the base directory the tensor has now. -/
 theorem C10_session_safe (kfuel fuel : Nat) (cwd : Loc) (hfuel : kfuel ≤ fuel) (loc : Str)
     (offset length : Nat) (s0 : Sess) (h0 : s0.st.raw = none) (steps : List Step)
-    (e : LogEntry) (he : e ∈ (runSess kfuel fuel (render cwd) cwd loc offset length s0 steps).2) :
+    (pre : List LogEntry) (e : LogEntry) (post : List LogEntry)
+    (hlog : (runSess kfuel fuel (render cwd) cwd loc offset length s0 steps).2 = pre ++ e :: post) :
     (∀ p i, e.base ≠ [] → RealDir e.fs cwd → Ev.openEv p (some i) ∈ e.events →
       p = tensorPath e.base loc ∧ SafeOpen e.fs kfuel fuel cwd e.base loc i) ∧
     (∀ bytes, e.res = ReadResult.ok bytes →
       ∃ i, bytes = sliceOf (e.fs.data i) offset length ∧
-        ∃ e' ∈ (runSess kfuel fuel (render cwd) cwd loc offset length s0 steps).2,
-          Ev.openEv (tensorPath e'.base loc) (some i) ∈ e'.events) := by
-  refine ⟨?_, ?_⟩
-  · intro p i hb hcwd hm
-    obtain ⟨st, hev, _⟩ := runSess_entries kfuel fuel (render cwd) cwd loc offset length steps s0 e he
+        ∃ e' ∈ pre ++ [e], e'.base = e.base ∧
+          Ev.openEv (tensorPath e.base loc) (some i) ∈ e'.events ∧
+          (e.base ≠ [] → RealDir e'.fs cwd → SafeOpen e'.fs kfuel fuel cwd e.base loc i)) := by
+  have hsafe : ∀ x ∈ (runSess kfuel fuel (render cwd) cwd loc offset length s0 steps).2, ∀ p i,
+      x.base ≠ [] → RealDir x.fs cwd → Ev.openEv p (some i) ∈ x.events →
+      p = tensorPath x.base loc ∧ SafeOpen x.fs kfuel fuel cwd x.base loc i := by
+    intro x hx p i hb hcwd hm
+    obtain ⟨st, hev, _⟩ := runSess_entries kfuel fuel (render cwd) cwd loc offset length steps s0 x hx
     rw [hev] at hm
-    exact C10_call_open_safe e.fs kfuel fuel cwd hcwd hfuel e.base loc offset length e.ep st hb p i hm
-  · intro bytes hb
-    obtain ⟨i, hi, hor⟩ := runSess_bytes kfuel fuel (render cwd) cwd loc offset length steps s0
-      (fun _ => False) (by intro i h; rw [h0] at h; exact absurd h (by simp)) e he bytes hb
-    rcases hor with hf | h
-    · exact absurd hf id
-    · exact ⟨i, hi, h⟩
+    exact C10_call_open_safe x.fs kfuel fuel cwd hcwd hfuel x.base loc offset length x.ep st hb p i hm
+  refine ⟨hsafe e (by rw [hlog]; simp), ?_⟩
+  intro bytes hb
+  obtain ⟨i, hi, hor⟩ := runSess_bytes kfuel fuel (render cwd) cwd loc offset length steps s0
+    (fun _ _ => False) (by intro i h; rw [h0] at h; exact absurd h (by simp)) pre e post hlog bytes hb
+  rcases hor with hf | ⟨e', he', hbase, hev⟩
+  · exact absurd hf id
+  · refine ⟨i, hi, e', he', hbase, hev, ?_⟩
+    intro hne hcwd
+    have hmem : e' ∈ (runSess kfuel fuel (render cwd) cwd loc offset length s0 steps).2 := by
+      rw [hlog]
+      rcases List.mem_append.mp he' with h | h
+      · exact List.mem_append.mpr (Or.inl h)
+      · have : e' = e := by simpa using h
+        subst this
+        simp
+    have := (hsafe e' hmem (tensorPath e.base loc) i (by rw [hbase]; exact hne) hcwd hev).2
+    rwa [hbase] at this
 
-/-- the stateful pattern of a skipped re-check is excluded: after a mapping call, `tofile` on a
-tensor whose location now leads outside still makes the check (its events are those of a fresh
-guarded read, whatever the cached state) -/
-example (fs : FS) (kfuel fuel : Nat) (cwdS : Str) (cwd : Loc) (base loc : Str) (offset length : Nat)
-    (st : TState) :
-    (call fs kfuel fuel cwdS cwd base loc offset length EntryPoint.tofile st).2.1 =
-      (read fs kfuel fuel cwdS cwd base loc offset length EntryPoint.tofile).2 := rfl
+end IrVerif.Path
+
+/-! ### non-vacuity: a tree /b/f, /b/m on which reads return bytes -/
+namespace IrVerif.Path
+
+def exFS : FS where
+  node := fun l => if l = [['b']] then some Node.dir
+    else if l = [['b'], ['f']] then some (Node.file 1)
+    else if l = [['b'], ['m']] then some (Node.file 2) else none
+  dnlink := fun _ => 2
+  nlink := fun _ => 1
+  data := fun _ => [10, 20, 30]
+
+theorem exFS_b : RealDir exFS [['b']] :=
+  ⟨by simpa using Chain.snoc (RealDir.root exFS) (c := ['b']) ⟨by decide, by decide, by decide, by decide⟩,
+   by decide⟩
+
+theorem exFS_bf : Chain exFS [['b'], ['f']] := by
+  simpa using Chain.snoc exFS_b (c := ['f']) ⟨by decide, by decide, by decide, by decide⟩
+
+theorem exFS_bm : Chain exFS [['b'], ['m']] := by
+  simpa using Chain.snoc exFS_b (c := ['m']) ⟨by decide, by decide, by decide, by decide⟩
+
+/-- on exFS, with cwd "/", the base "/b" and the location "f": check passes, the file is opened -/
+theorem ex_guarded : guardedOpen exFS 40 40 (render []) [] "/b".toList "f".toList = some (1, true) := by
+  have hk : kresolve exFS 40 [] "/b/f".toList true = some [['b'], ['f']] :=
+    kresolve_render exFS 40 [] _ exFS_bf (Node.file 1) (by decide) (by intro t; simp)
+  have hkb : kresolve exFS 40 [] "/b".toList true = some [['b']] :=
+    kresolve_render exFS 40 [] _ exFS_b.1 Node.dir (by decide) (by intro t; simp)
+  have hp : tensorPath "/b".toList "f".toList = "/b/f".toList := by decide
+  have r1 := (realpath_of_kresolve exFS 40 40 [] (RealDir.root exFS) _ 40 _ hk (Nat.le_refl _)).1
+  have r2 := (realpath_of_kresolve exFS 40 40 [] (RealDir.root exFS) _ 40 _ hkb (Nat.le_refl _)).1
+  have hv : checkContainment exFS 40 40 (render []) [] "/b".toList "f".toList = Verdict.pass := by
+    have c1 : check1 (render []) "/b".toList "f".toList = true := by decide
+    have c2 : check2 exFS 40 40 (render []) [] "/b".toList "f".toList = true := by
+      unfold check2; rw [hp, r1, r2]; decide
+    have c3 : check3 exFS 40 40 (render []) [] "/b".toList "f".toList = true := by
+      unfold check3 statFile
+      rw [hp, r1]
+      have : kresolve exFS 40 [] (render [['b'], ['f']]) true = some [['b'], ['f']] := hk
+      rw [this]
+      decide
+    unfold checkContainment
+    rw [if_neg (by decide), if_neg (by rw [c1]; simp), if_neg (by rw [c2]; simp),
+      if_neg (by rw [c3]; simp)]
+  have ho : openFile exFS 40 [] "/b/f".toList = some (1, true) := by
+    unfold openFile; rw [hk]; decide
+  unfold guardedOpen
+  rw [hv, hp, ho]
+  simp [rejecting]
+
+theorem ex_read (ep : EntryPoint) :
+    (read exFS 40 40 (render []) [] "/b".toList "f".toList 0 3 ep).1 = ReadResult.ok [10, 20, 30] := by
+  unfold read
+  simp only
+  rw [call_eq_spec]
+  have hl : loadSpec exFS 40 40 (render []) [] "/b".toList "f".toList 0 3 { raw := none, arr := false } =
+      (true, { raw := some 1, arr := true }) := by
+    unfold loadSpec
+    rw [ex_guarded]
+    decide
+  unfold callSpec
+  cases ep <;> simp only [TState.fresh, hl, ex_guarded] <;> decide
+
+/-- C10_read_safe / C10_open_safe are not vacuous: all hypotheses hold on exFS and bytes come back -/
+example : ∃ i, [10, 20, 30] = ((exFS.data i).drop 0).take 3 ∧
+    SafeOpen exFS 40 40 [] "/b".toList "f".toList i :=
+  C10_read_safe exFS 40 40 [] (RealDir.root exFS) (Nat.le_refl _) _ _ 0 3 EntryPoint.tofile _ (by decide)
+    (ex_read EntryPoint.tofile)
+
+example : Ev.openEv (tensorPath "/b".toList "f".toList) (some 1) ∈
+    (read exFS 40 40 (render []) [] "/b".toList "f".toList 0 3 EntryPoint.numpy).2 := by
+  rw [read_events]
+  exact (guardedOpen_event _ _ _ _ _ _ _ _ _ ex_guarded).1
+
+/-- C10_session_safe is not vacuous: a sequence whose log has an entry that returns bytes -/
+example : ∃ pre e post,
+    (runSess 40 40 (render []) [] "f".toList 0 3
+      { fs := exFS, base := "/b".toList, st := TState.fresh }
+      [Step.call EntryPoint.numpy, Step.call EntryPoint.tobytes]).2 = pre ++ e :: post ∧
+    e.res = ReadResult.ok [10, 20, 30] := by
+  refine ⟨[], _, _, rfl, ?_⟩
+  have := ex_read EntryPoint.numpy
+  unfold read at this
+  exact this
+
+/-- C10_load_read_safe is not vacuous: the model /b/m opened from cwd "/" gets the base "/b" -/
+example : kresolve exFS 40 [] "/b/m".toList true = some [['b'], ['m']] ∧
+    Clean (tailPart "/b/m".toList) ∧ loadBase (render []) "/b/m".toList = "/b".toList ∧
+    (read exFS 40 40 (render []) [] (loadBase (render []) "/b/m".toList) "f".toList 0 3
+      EntryPoint.tobytes).1 = ReadResult.ok [10, 20, 30] := by
+  refine ⟨kresolve_render exFS 40 [] _ exFS_bm (Node.file 2) (by decide) (by intro t; simp),
+    ⟨by decide, by decide, by decide, by decide⟩, by decide, ?_⟩
+  have : loadBase (render []) "/b/m".toList = "/b".toList := by decide
+  rw [this]
+  exact ex_read EntryPoint.tobytes
 
 end IrVerif.Path
 
